@@ -1,74 +1,105 @@
 (** C20 — abstract interpreter over the callback language and its soundness.
-    [an fuel e s] over-approximates, for context [e], the mutators statement [s] can perform and
-    whether it can complete normally; [None] = call depth exhausted (treated as "may do anything").
-    [check] requires, for every exported callback and every good context, that no reachable
-    mutator is forbidden.  [analysis_sound]: then no trace of any exported callback started in a
-    good context contains a forbidden mutator, contract code run from callbacks included. *)
+    For one context [e], [anS p S e s] over-approximates the mutators statement [s] can perform and
+    whether it can complete normally, reading the effect of a call [Call f] from a summary table
+    [S] (function name -> mutators).  [iter] computes a table by Kleene iteration from the empty
+    one; the checker does not trust it: it verifies that the table is inductive ([inductive]:
+    the analysis of every function body is included in the function's entry), which makes it
+    sound for any call depth and for recursion.  [check] requires, for every good context, an
+    inductive table in which no exported callback has a forbidden mutator.
+    [analysis_sound]: then no trace of any exported callback started in a good context contains a
+    forbidden mutator, contract code run from callbacks (RunLua) included. *)
 From Coq Require Import List Bool String Lia.
 From Verif Require Import VmGuard.Lang.
 Import ListNotations.
 
-Definition res := option (list (string * kind) * bool).
+Definition mut := (string * kind)%type.
 
-Definition join (a b : res) : res :=
-  match a, b with
-  | Some (m1, f1), Some (m2, f2) => Some (m1 ++ m2, f1 || f2)
-  | _, _ => None
+Definition kind_eqb (a b : kind) : bool :=
+  match a, b with KAny, KAny | KQ, KQ | KV, KV => true | _, _ => false end.
+Definition mut_eqb (a b : mut) : bool := String.eqb (fst a) (fst b) && kind_eqb (snd a) (snd b).
+
+Lemma mut_eqb_eq : forall a b, mut_eqb a b = true <-> a = b.
+Proof.
+  intros [n1 k1] [n2 k2]. unfold mut_eqb. simpl. split.
+  - intros H. apply andb_true_iff in H. destruct H as [H1 H2]. apply String.eqb_eq in H1. subst.
+    destruct k1, k2; simpl in H2; try discriminate; reflexivity.
+  - intros H. inversion H; subst. rewrite String.eqb_refl. destruct k2; reflexivity.
+Qed.
+
+Fixpoint dedup (l : list mut) : list mut :=
+  match l with
+  | [] => []
+  | x :: r => if existsb (mut_eqb x) r then dedup r else x :: dedup r
   end.
 
-Fixpoint an (p : prog) (fuel : nat) (e : env) (s : stmt) {struct fuel} : res :=
-  let fix go (s : stmt) : res :=
-    match s with
-    | Skip => Some ([], true)
-    | Seq a b =>
-        match go a with
-        | None => None
-        | Some (m1, false) => Some (m1, false)
-        | Some (m1, true) => match go b with None => None | Some (m2, f2) => Some (m1 ++ m2, f2) end
-        end
-    | If c a b =>
-        match ceval e c with
-        | Some true => go a
-        | Some false => go b
-        | None => join (go a) (go b)
-        end
-    | Loop s => match go s with None => None | Some (m, _) => Some (m, true) end
-    | Return => Some ([], false)
-    | Defer s => match go s with None => None | Some (m, _) => Some (m, true) end
-    | Mut m k => Some ([(m, k)], true)
-    | Call f =>
-        match fuel with
-        | O => None
-        | S n =>
-            match lookup p f with
-            | None => Some ([], true)
-            | Some body => match an p n e body with None => None | Some (m, _) => Some (m, true) end
-            end
-        end
-    | RunLua => Some ([], true)
-    end in
-  go s.
+Lemma dedup_in : forall l x, In x l -> In x (dedup l).
+Proof.
+  induction l as [|y r IH]; intros x H; [destruct H|]. simpl.
+  destruct (existsb (mut_eqb y) r) eqn:E.
+  - destruct H as [<-|H]; [|auto]. apply existsb_exists in E. destruct E as (z & Hz & Hy).
+    apply mut_eqb_eq in Hy. subst. auto.
+  - destruct H as [<-|H]; [left; reflexivity | right; auto].
+Qed.
+
+Definition summ := list (string * list mut).
+
+Fixpoint sget (S : summ) (f : string) : list mut :=
+  match S with [] => [] | (g, l) :: S' => if String.eqb f g then l else sget S' f end.
+
+Fixpoint anS (p : prog) (S : summ) (e : env) (s : stmt) : list mut * bool :=
+  match s with
+  | Skip => ([], true)
+  | Seq a b =>
+      let '(m1, f1) := anS p S e a in
+      if f1 then let '(m2, f2) := anS p S e b in (m1 ++ m2, f2) else (m1, false)
+  | If c a b =>
+      match ceval e c with
+      | Some true => anS p S e a
+      | Some false => anS p S e b
+      | None => let '(m1, f1) := anS p S e a in let '(m2, f2) := anS p S e b in (m1 ++ m2, f1 || f2)
+      end
+  | Loop s => (fst (anS p S e s), true)
+  | Return => ([], false)
+  | Defer s => (fst (anS p S e s), true)
+  | Mut m k => ([(m, k)], true)
+  | Call f => (match lookup p f with Some _ => sget S f | None => [] end, true)
+  | RunLua => ([], true)
+  end.
+
+Definition stepS (p : prog) (e : env) (S : summ) : summ :=
+  map (fun fb => (fst fb, dedup (fst (anS p S e (snd fb))))) p.
+
+Fixpoint iter (n : nat) (p : prog) (e : env) (S : summ) : summ :=
+  match n with O => S | Datatypes.S n' => iter n' p e (stepS p e S) end.
+
+Definition subset (a b : list mut) : bool := forallb (fun x => existsb (mut_eqb x) b) a.
+
+Definition inductive (p : prog) (e : env) (S : summ) : bool :=
+  forallb (fun fb => subset (fst (anS p S e (snd fb))) (sget S (fst fb))) p.
+
+Definition table (p : prog) (n : nat) (e : env) : summ := iter n p e (map (fun fb => (fst fb, [])) p).
+
+Definition cb_muts (p : prog) (S : summ) (cb : string) : list mut :=
+  match lookup p cb with Some _ => sget S cb | None => [] end.
+
+Definition env_ok (p : prog) (cbs : list string) (n : nat) (e : env) : bool :=
+  let S := table p n e in
+  inductive p e S && forallb (fun cb => forallb (fun mk => negb (forbidden (snd mk) e)) (cb_muts p S cb)) cbs.
 
 Definition all_envs : list env :=
   flat_map (fun q => flat_map (fun v => flat_map (fun a => flat_map (fun z => map (fun f => mkE q v a z f)
     [true; false]) [true; false]) [true; false]) [true; false]) [true; false].
 
-Definition cb_ok (p : prog) (fuel : nat) (e : env) (cb : string) : bool :=
-  match an p fuel e (Call cb) with
-  | None => false
-  | Some (ms, _) => forallb (fun mk => negb (forbidden (snd mk) e)) ms
-  end.
-
-Definition check (p : prog) (cbs : list string) (fuel : nat) : bool :=
-  forallb (fun cb => forallb (fun e => negb (good e) || cb_ok p fuel e cb) all_envs) cbs.
+Definition check (p : prog) (cbs : list string) (n : nat) : bool :=
+  forallb (fun e => negb (good e) || env_ok p cbs n e) all_envs.
 
 (** the (callback, context, mutator) triples that make [check] fail — the "failing input" *)
-Definition offending (p : prog) (cbs : list string) (fuel : nat) (envs : list env) :=
-  flat_map (fun cb => flat_map (fun e =>
-    match an p fuel e (Call cb) with
-    | None => [(cb, e, "<call depth exhausted>"%string)]
-    | Some (ms, _) => map (fun mk => (cb, e, fst mk)) (filter (fun mk => forbidden (snd mk) e) ms)
-    end) envs) cbs.
+Definition offending (p : prog) (cbs : list string) (n : nat) (envs : list env) :=
+  flat_map (fun e =>
+    let S := table p n e in
+    if inductive p e S then
+      flat_map (fun cb => map (fun mk => (cb, e, fst mk)) (filter (fun mk => forbidden (snd mk) e) (cb_muts p S cb))) cbs
+    else [("<summary table not inductive: increase the iteration bound>"%string, e, ""%string)]) envs.
 
 (* ------------------------------------------------------------------ soundness *)
 Lemma all_envs_complete : forall e, In e all_envs.
@@ -80,26 +111,36 @@ Proof.
   rewrite HA, andb_true_r. rewrite HQ. destruct (eQ e); simpl in *; auto.
 Qed.
 
+Lemma lookup_in : forall p f body, lookup p f = Some body -> In (f, body) p.
+Proof.
+  induction p as [|[g s] p IH]; simpl; intros f body H; [discriminate|].
+  destruct (String.eqb f g) eqn:E; [apply String.eqb_eq in E; inversion H; subst; auto | right; auto].
+Qed.
+
+Lemma subset_in : forall a b x, subset a b = true -> In x a -> In x b.
+Proof.
+  intros a b x H Hin. unfold subset in H. rewrite forallb_forall in H. specialize (H x Hin).
+  apply existsb_exists in H. destruct H as (y & Hy & E). apply mut_eqb_eq in E. subst. exact Hy.
+Qed.
+
 Section Sound.
   Variable p : prog.
   Variable cbs : list string.
-  Variable fuel0 : nat.
-  Hypothesis Hcheck : check p cbs fuel0 = true.
+  Variable n0 : nat.
+  Hypothesis Hcheck : check p cbs n0 = true.
 
-  Lemma check_cb : forall cb e, In cb cbs -> good e = true ->
-    exists ms f, an p fuel0 e (Call cb) = Some (ms, f) /\ forall m k, In (m, k) ms -> forbidden k e = false.
+  Lemma check_env : forall e, good e = true ->
+    inductive p e (table p n0 e) = true /\
+    forall cb m k, In cb cbs -> In (m, k) (cb_muts p (table p n0 e) cb) -> forbidden k e = false.
   Proof.
-    intros cb e Hin Hg. unfold check in Hcheck. rewrite forallb_forall in Hcheck.
-    specialize (Hcheck cb Hin). rewrite forallb_forall in Hcheck.
+    intros e Hg. unfold check in Hcheck. rewrite forallb_forall in Hcheck.
     specialize (Hcheck e (all_envs_complete e)). rewrite Hg in Hcheck. simpl in Hcheck.
-    unfold cb_ok in Hcheck. destruct (an p fuel0 e (Call cb)) as [[ms f]|]; [|discriminate].
-    exists ms, f. split; [reflexivity|]. intros m k Hm. rewrite forallb_forall in Hcheck.
-    specialize (Hcheck (m, k) Hm). simpl in Hcheck. apply negb_true_iff in Hcheck. exact Hcheck.
+    unfold env_ok in Hcheck. apply andb_true_iff in Hcheck. destruct Hcheck as [H1 H2]. split; [exact H1|].
+    intros cb m k Hin Hm. rewrite forallb_forall in H2. specialize (H2 cb Hin). rewrite forallb_forall in H2.
+    specialize (H2 (m, k) Hm). simpl in H2. apply negb_true_iff in H2. exact H2.
   Qed.
 
-  (** events of a trace are either accounted for by the analysis of the statement in its own
-      context, or not forbidden in the context they happened in *)
-  Definition covered (e : env) (ms : list (string * kind)) (t : list event) : Prop :=
+  Definition covered (e : env) (ms : list mut) (t : list event) : Prop :=
     forall m k e0, In (m, k, e0) t -> (e0 = e /\ In (m, k) ms) \/ forbidden k e0 = false.
 
   Lemma covered_app : forall e m1 m2 t1 t2, covered e m1 t1 -> covered e m2 t2 -> covered e (m1 ++ m2) (t1 ++ t2).
@@ -115,96 +156,49 @@ Section Sound.
   Lemma covered_nil : forall e ms, covered e ms [].
   Proof. intros e ms m k e0 []. Qed.
 
-  Lemma an_unfold : forall fuel e s, an p fuel e s =
-    match s with
-    | Skip => Some ([], true)
-    | Seq a b =>
-        match an p fuel e a with
-        | None => None
-        | Some (m1, false) => Some (m1, false)
-        | Some (m1, true) => match an p fuel e b with None => None | Some (m2, f2) => Some (m1 ++ m2, f2) end
-        end
-    | If c a b =>
-        match ceval e c with
-        | Some true => an p fuel e a
-        | Some false => an p fuel e b
-        | None => join (an p fuel e a) (an p fuel e b)
-        end
-    | Loop s => match an p fuel e s with None => None | Some (m, _) => Some (m, true) end
-    | Return => Some ([], false)
-    | Defer s => match an p fuel e s with None => None | Some (m, _) => Some (m, true) end
-    | Mut m k => Some ([(m, k)], true)
-    | Call f =>
-        match fuel with
-        | O => None
-        | S n =>
-            match lookup p f with
-            | None => Some ([], true)
-            | Some body => match an p n e body with None => None | Some (m, _) => Some (m, true) end
-            end
-        end
-    | RunLua => Some ([], true)
-    end.
-  Proof. intros fuel e s. destruct fuel; destruct s; reflexivity. Qed.
-
   Lemma exec_sound : forall e s t o, exec p cbs e s t o -> good e = true ->
-    forall fuel ms f, an p fuel e s = Some (ms, f) -> covered e ms t /\ (o = true -> f = true).
+    forall S, inductive p e S = true ->
+    covered e (fst (anS p S e s)) t /\ (o = true -> snd (anS p S e s) = true).
   Proof.
-    induction 1; intros Hg fuel ms fl Han; rewrite an_unfold in Han.
-    - inversion Han; subst. split; [apply covered_nil | auto].
-    - destruct (an p fuel e a) as [[m1 [|]]|] eqn:Ea; try discriminate.
-      + destruct (an p fuel e b) as [[m2 f2]|] eqn:Eb; [|discriminate]. inversion Han; subst.
-        destruct (IHexec1 Hg _ _ _ Ea) as [C1 _]. destruct (IHexec2 Hg _ _ _ Eb) as [C2 F2].
-        split; [apply covered_app; auto | auto].
-      + destruct (IHexec1 Hg _ _ _ Ea) as [_ F1]. specialize (F1 eq_refl). discriminate.
-    - destruct (an p fuel e a) as [[m1 [|]]|] eqn:Ea; try discriminate.
-      + destruct (an p fuel e b) as [[m2 f2]|] eqn:Eb; [|discriminate]. inversion Han; subst.
-        destruct (IHexec Hg _ _ _ Ea) as [C1 _]. split; [|discriminate].
-        eapply covered_mono; eauto. intros; apply in_or_app; auto.
-      + inversion Han; subst. destruct (IHexec Hg _ _ _ Ea) as [C1 _]. split; [auto|discriminate].
-    - destruct (ceval e c) as [[|]|] eqn:Ec.
-      + eapply IHexec; eauto.
+    induction 1; intros Hg S HS.
+    - split; [apply covered_nil | auto].
+    - destruct (IHexec1 Hg S HS) as [C1 F1]. destruct (IHexec2 Hg S HS) as [C2 F2]. cbn [anS].
+      destruct (anS p S e a) as [m1 f1]. destruct (anS p S e b) as [m2 f2]. simpl in *.
+      rewrite (F1 eq_refl). simpl. split; [apply covered_app; auto | auto].
+    - destruct (IHexec Hg S HS) as [C1 _]. cbn [anS].
+      destruct (anS p S e a) as [m1 f1]. destruct (anS p S e b) as [m2 f2]. simpl in *.
+      destruct f1; simpl; (split; [|discriminate]); [eapply covered_mono; eauto; intros; apply in_or_app; auto | auto].
+    - destruct (IHexec Hg S HS) as [C1 F1]. cbn [anS]. destruct (ceval e c) as [[|]|] eqn:Ec.
+      + split; auto.
       + congruence.
-      + destruct (an p fuel e a) as [[m1 f1]|] eqn:Ea; [|discriminate].
-        destruct (an p fuel e b) as [[m2 f2]|] eqn:Eb; [|discriminate]. simpl in Han. inversion Han; subst.
-        destruct (IHexec Hg _ _ _ Ea) as [C1 F1]. split.
+      + destruct (anS p S e a) as [m1 f1]. destruct (anS p S e b) as [m2 f2]. simpl in *. split.
         * eapply covered_mono; eauto. intros; apply in_or_app; auto.
         * intros Ho. rewrite (F1 Ho). reflexivity.
-    - destruct (ceval e c) as [[|]|] eqn:Ec.
+    - destruct (IHexec Hg S HS) as [C1 F1]. cbn [anS]. destruct (ceval e c) as [[|]|] eqn:Ec.
       + congruence.
-      + eapply IHexec; eauto.
-      + destruct (an p fuel e a) as [[m1 f1]|] eqn:Ea; [|discriminate].
-        destruct (an p fuel e b) as [[m2 f2]|] eqn:Eb; [|discriminate]. simpl in Han. inversion Han; subst.
-        destruct (IHexec Hg _ _ _ Eb) as [C1 F1]. split.
+      + split; auto.
+      + destruct (anS p S e a) as [m1 f1]. destruct (anS p S e b) as [m2 f2]. simpl in *. split.
         * eapply covered_mono; eauto. intros; apply in_or_app; auto.
         * intros Ho. rewrite (F1 Ho). apply orb_true_r.
-    - destruct (an p fuel e s) as [[m1 f1]|] eqn:Es; [|discriminate]. inversion Han; subst.
-      split; [apply covered_nil | auto].
-    - destruct (an p fuel e s) as [[m1 f1]|] eqn:Es; [|discriminate]. inversion Han; subst.
-      destruct (IHexec1 Hg _ _ _ Es) as [C1 _].
-      assert (HL : an p fuel e (Loop s) = Some (ms, true)) by (rewrite an_unfold, Es; reflexivity).
-      destruct (IHexec2 Hg _ _ _ HL) as [C2 _]. split; [|auto].
+    - split; [apply covered_nil | auto].
+    - destruct (IHexec1 Hg S HS) as [C1 _]. destruct (IHexec2 Hg S HS) as [C2 _]. cbn [anS fst snd] in *. split; [|auto].
       eapply covered_mono; [apply covered_app; eauto|]. intros x Hx. apply in_app_or in Hx. tauto.
-    - destruct (an p fuel e s) as [[m1 f1]|] eqn:Es; [|discriminate]. inversion Han; subst.
-      destruct (IHexec Hg _ _ _ Es) as [C1 _]. split; [auto|discriminate].
-    - inversion Han; subst. split; [apply covered_nil | discriminate].
-    - destruct (an p fuel e s) as [[m1 f1]|] eqn:Es; [|discriminate]. inversion Han; subst.
-      destruct (IHexec Hg _ _ _ Es) as [C1 _]. split; auto.
-    - inversion Han; subst. split; [|auto]. intros m0 k0 e0 [Hin|[]]. inversion Hin; subst. left. split; simpl; auto.
-    - destruct fuel as [|n]; [discriminate|]. rewrite H in Han.
-      destruct (an p n e body) as [[m1 f1]|] eqn:Eb; [|discriminate]. inversion Han; subst.
-      destruct (IHexec Hg _ _ _ Eb) as [C1 _]. split; auto.
-    - destruct fuel as [|n]; [discriminate|]. rewrite H in Han. inversion Han; subst.
-      split; [apply covered_nil | auto].
-    - inversion Han; subst. split; [apply covered_nil | auto].
-    - inversion Han; subst. split; [|auto].
+    - destruct (IHexec Hg S HS) as [C1 _]. cbn [anS fst snd] in *. split; [auto|discriminate].
+    - split; [apply covered_nil | discriminate].
+    - destruct (IHexec Hg S HS) as [C1 _]. cbn [anS fst snd] in *. split; auto.
+    - cbn [anS fst snd]. split; [|auto]. intros m0 k0 e0 [Hin|[]]. inversion Hin; subst. left. split; simpl; auto.
+    - destruct (IHexec Hg S HS) as [C1 _]. cbn [anS fst snd]. rewrite H. split; [|auto].
+      eapply covered_mono; [exact C1|]. intros x Hx.
+      unfold inductive in HS. rewrite forallb_forall in HS. specialize (HS (f, body) (lookup_in _ _ _ H)). simpl in HS.
+      eapply subset_in; eauto.
+    - cbn [anS fst snd]. rewrite H. split; [apply covered_nil | auto].
+    - split; [apply covered_nil | auto].
+    - cbn [anS fst snd]. split; [|auto].
       assert (Hg' : good e' = true) by (eapply good_rel; eauto).
-      destruct (check_cb cb e' H Hg') as (ms' & f' & Hcb & Hnf).
-      destruct (IHexec1 Hg' _ _ _ Hcb) as [C1 _].
-      assert (HL : an p fuel e RunLua = Some ([], true)) by (rewrite an_unfold; reflexivity).
-      destruct (IHexec2 Hg _ _ _ HL) as [C2 _].
+      destruct (check_env e' Hg') as [HS' Hnf].
+      destruct (IHexec1 Hg' _ HS') as [C1 _]. destruct (IHexec2 Hg S HS) as [C2 _]. cbn [anS fst] in C1, C2.
       intros m k e0 Hin. apply in_app_or in Hin. destruct Hin as [Hin|Hin].
-      + right. destruct (C1 _ _ _ Hin) as [[-> Hm]|Hf]; eauto.
+      + right. destruct (C1 _ _ _ Hin) as [[-> Hm]|Hf]; [|exact Hf]. eapply Hnf; eauto.
       + destruct (C2 _ _ _ Hin) as [[_ []]|Hf]. right; auto.
   Qed.
 
@@ -215,25 +209,26 @@ Section Sound.
     exec p cbs e (Call cb) t o -> forall m k e0, In (m, k, e0) t -> forbidden k e0 = false.
   Proof.
     intros cb e t o Hin Hg Hex m k e0 Hev.
-    destruct (check_cb cb e Hin Hg) as (ms & f & Hcb & Hnf).
-    destruct (exec_sound _ _ _ _ Hex Hg _ _ _ Hcb) as [C _].
-    destruct (C _ _ _ Hev) as [[-> Hm]|Hf]; eauto.
+    destruct (check_env e Hg) as [HS Hnf].
+    destruct (exec_sound _ _ _ _ Hex Hg _ HS) as [C _]. cbn [anS fst] in C.
+    destruct (C _ _ _ Hev) as [[-> Hm]|Hf]; [|exact Hf]. eapply Hnf; eauto.
   Qed.
 End Sound.
 
 (** the hypotheses are satisfiable by a non-trivial program: a guarded setter, a callback that
-    runs contract code, and an execution in a view context *)
+    runs contract code, a recursive helper, and an execution in a view context *)
 Example ex_prog : prog :=
   [("luaSetDB"%string, Seq (If (COr (CAtom AQ) (CAtom AV)) Return Skip) (Mut "SetData" KAny));
-   ("luaCallContract"%string, Seq (If (CAtom AAmtPos) (Seq (If (COr (CAtom AQ) (CAtom AV)) Return Skip) (Mut "sendBalance" KAny)) Skip) RunLua)].
+   ("helper"%string, If CUnknown (Call "helper") Skip);
+   ("luaCallContract"%string, Seq (Call "helper") (Seq (If (CAtom AAmtPos) (Seq (If (COr (CAtom AQ) (CAtom AV)) Return Skip) (Mut "sendBalance" KAny)) Skip) RunLua))].
 Example ex_check : check ex_prog ["luaSetDB"%string; "luaCallContract"%string] 4 = true.
 Proof. vm_compute. reflexivity. Qed.
 Example ex_exec : exec ex_prog ["luaSetDB"%string; "luaCallContract"%string] (mkE false true false true true)
-                       (Call "luaCallContract") [] true.
-Proof.
-  eapply X_Call; [reflexivity|]. change (@nil event) with (@nil event ++ @nil event).
-  eapply X_SeqN; [|apply X_Lua0]. apply X_IfF; [discriminate | apply X_Skip].
-Qed.
+                       (Call "luaSetDB") [] true.
+Proof. eapply X_Call; [reflexivity|]. apply X_SeqR. apply X_IfT; [discriminate | apply X_Return]. Qed.
 Example ex_unguarded_rejected :
   check [("bad"%string, Mut "SetData" KAny)] ["bad"%string] 4 = false.
+Proof. vm_compute. reflexivity. Qed.
+Example ex_unguarded_behind_recursion_rejected :
+  check [("bad"%string, Call "r"); ("r"%string, Seq (If CUnknown (Call "r") Skip) (Mut "SetData" KAny))] ["bad"%string] 4 = false.
 Proof. vm_compute. reflexivity. Qed.
